@@ -59,7 +59,8 @@ const (
 	FeatTimerTies      = 4096  // C14: re-arm / stop placed exactly at the expiry instant of the running timer
 	FeatMdnsRequests   = 8192  // C17: the hub asks for the known entries (RequestMdnsEntries) while resolver events come in
 	FeatLatePairing    = 16384 // C09 hub: a first connection is lost while the service is not yet trusted, pairing and a second connection follow
-	FeatAll            = 32767
+	FeatRelayAdversary = 32768 // C02 outbound: the adversary relays the first connection to the genuine device, cuts it and answers the retry itself
+	FeatAll            = 65535
 )
 
 // SetFeatForRig forces the dual-stack options of the next hub rig (workloads
